@@ -269,7 +269,9 @@ def check(run: Run) -> None:
     with run.obligation("C03.g", "K1", "a node is also run by its own scheduled wake-up: a request for an earlier time always lowers the graph's next "
                         "cycle (shared with C02.a), so the cycle in which the node must run is actually visited"):
         sub = Run("C03", run.tier, run.tree, quiet=True)
-        c02.check(sub)
+        sub.is_sub = True
+        if not getattr(run, "is_sub", False):
+            c02.check(sub)
         run.evaluations += sub.evaluations
         run.count(1, "C03.g")
         for f in sub.findings:
@@ -278,6 +280,11 @@ def check(run: Run) -> None:
         for e in sub.errors:
             if e.startswith("C02.a:"):
                 raise AnalysisError("model-mismatch", e)
+
+    with run.obligation("C03.h", "K2", "a cycle that failed is never resumed from the failing node: the next cycle scans the (sub-)graph from node 0, so a node ranked before "
+                        "the thrower still runs when its input ticks (shared with C01.d2)"):
+        from . import c01
+        R.share(run, "C03.h", c01, ["C01.d2"])
 
 
 VARIANTS = [
